@@ -17,12 +17,18 @@ struct vf_in {
 	unsigned char j[NJ * B];
 	unsigned char fs[NFS * B];
 	unsigned int s_start, s_sequence, s_first;
+#if FEAT_CSUM
+	unsigned int csum[NJ];		/* "the checksum of journal block k" */
+#endif
 	unsigned long long rblk[NREVQ];		/* the revoke set: block rblk[k] is revoked up to transaction ordinal rord[k] */
 	unsigned int rord[NREVQ];
 };
 VF_DECLARE_INPUT(struct vf_in, IN)
 #include "vf_input.inc"
 #define VF_NO_REVOKE
+#define VF_CSUM_WORD(k) IN.csum[k]
+#define REF_CSUM(k) IN.csum[k]
+#define REF_SEQ0 IN.s_sequence
 #include "jgeom.h"
 #include "jenv.h"
 
@@ -64,19 +70,30 @@ int main(void)
 	/* BOUND: revoke records belong to transactions within 2^30 ids of s_sequence */
 	for (i = 0; i < NREVQ; i++)
 		ASSUME(IN.rord[i] < (1u << 30));
+#if FEAT_CSUM
+	/* ASSUME: transaction ids in the log are not 0 (see scan.c) */
+	ASSUME(IN.s_sequence >= 1 && IN.s_sequence < 0xffffff00u);
+#endif
 	vf_make_journal(VF_FIRST, IN.s_sequence, VF_START);
 
 	ref_walk(IN.s_sequence);
 	/* ASSUME: the log walk ends within REF_MAXWALK header blocks */
 	ASSUME(ref_terminated);
 	ASSUME(ref_bound_ok);
+#if FEAT_CSUM
+	/* the scan did not fail (else recovery stops before the replay pass) */
+	ASSUME(!ref_scan_error);
+#endif
 	ref_replay();
 
 	info.start_transaction = IN.s_sequence;
-	info.end_transaction = IN.s_sequence + ref_ncommits;
+	info.end_transaction = IN.s_sequence + ref_end_ord;
 	rc = do_one_pass(&vf_journal, &info, PASS_REPLAY);
 
-	PROP(rc == 0, "replay pass succeeds");
+	if (ref_data_csum_failed)
+		PROP(rc != 0, "a logged block failing its checksum makes recovery report failure");
+	else
+		PROP(rc == 0, "replay pass succeeds");
 	for (i = 0; i < NFS * B; i++)
 		PROP(vf_fsdev[i] == ref_fs[i], "filesystem after replay == reference (committed, unrevoked, last image wins; everything else untouched)");
 	PROP(info.nr_replays == (int) ref_nreplayed, "number of replayed blocks");
